@@ -87,19 +87,26 @@ class CounterClock:
 
 
 def patch_clock(clock, *modules) -> None:
-    """Replace `time` (function imported with `from time import time`) or `time.time` in modules."""
+    """Replace `time` in modules: the function imported with `from time import time`, or the module `time`."""
+    import types
+
+    class _T:
+        def __init__(self, c):
+            self._c = c
+
+        def time(self):
+            return self._c()
+
+        def sleep(self, s):
+            self._c.sleep(s)
+
+        def __getattr__(self, n):
+            import time as _t
+            return getattr(_t, n)
+
     for m in modules:
-        if hasattr(m, "time") and callable(getattr(m, "time")) and not hasattr(getattr(m, "time"), "time"):
-            m.time = clock  # `from time import time`
-        elif hasattr(m, "time"):
-            class _T:
-                def __init__(self, c):
-                    self._c = c
-                def time(self):
-                    return self._c()
-                def sleep(self, s):
-                    self._c.sleep(s)
-                def __getattr__(self, n):
-                    import time as _t
-                    return getattr(_t, n)
+        cur = getattr(m, "time", None)
+        if isinstance(cur, (types.ModuleType, _T)) or type(cur).__name__ == "_T":
             m.time = _T(clock)
+        else:
+            m.time = clock  # `from time import time`
